@@ -105,8 +105,8 @@ EXPORT int fscanf_s(FILE *restrict stream, const char *restrict fmt, ...) {
     }
 
 #if defined(HAVE_STRSTR)
-    if (unlikely((p = strstr((char *)fmt, "%n")))) {
-        if ((p - fmt == 0) || *(p - 1) != '%') {
+    if (unlikely((p = safec_find_percent_n(fmt)))) {
+        { /* any n conversion, whatever flags, width or length modifier */
             invoke_safe_str_constraint_handler("fscanf_s: illegal %n", NULL,
                                                EINVAL);
             errno = EINVAL;
